@@ -163,11 +163,47 @@ Definition decode (x : sx) : option (case * obs) :=
 
 Definition enc_obs (o : obs) : sx := L [sxN (ocode o); sxN (ocount o)].
 
+(* ---- histories: a sequence of requests handled by ONE long-lived handler object ----
+   The modelled handlers keep no state between requests (their result is a function of the
+   configuration, the request and what the data source answers for the targeted system), so the
+   model of a history decides every step on its own; the implementation's per-step observations
+   (the real handler object reused across the steps) are judged step by step by [holds]. *)
+Definition run_history (h : list case) : list obs := map run_model h.
+Fixpoint holds_history (h : list case) (os : list obs) : list string :=
+  match h, os with
+  | [], [] => []
+  | c :: h', o :: os' => holds c o ++ holds_history h' os'
+  | _, _ => ["history_length"%string]
+  end.
+(* the steps of a history share the handler configuration *)
+Definition same_handler (a b : case) : bool :=
+  Bool.eqb (ckey a) (ckey b) && (length (centries a) =? length (centries b))%nat &&
+  match ckind a, ckind b with KFile, KFile | KUpdate, KUpdate => true | _, _ => false end.
+Definition valid_history (h : list case) : Prop := Forall valid h.
+
+Definition entry1 (x : sx) : option (obs * list string * list string * bool) :=
+  match decode x with
+  | None => None
+  | Some (c, io) => let m := run_model c in Some (m, holds c m, holds c io, validb c)
+  end.
+
 Definition entry (x : sx) : sx :=
+  match x with
+  | L [I 9%Z; L steps] =>
+      match omap entry1 steps with
+      | None => sxS "bad-case"
+      | Some rs =>
+          L [ L (map (fun r => enc_obs (fst (fst (fst r)))) rs);
+              L (map sxS (flat_map (fun r => snd (fst (fst r))) rs));
+              L (map sxS (flat_map (fun r => snd (fst r)) rs));
+              sxBool (forallb (fun r => snd r) rs) ]
+      end
+  | _ =>
   match decode x with
   | None => sxS "bad-case"
   | Some (c, io) =>
       let m := run_model c in
       L [ enc_obs m; L (map sxS (holds c m)); L (map sxS (holds c io));
           sxBool (validb c); sxBool (cmember c); sxBool (cwell_typed c) ]
+  end
   end.
